@@ -557,10 +557,12 @@ def check_run(p, rec):
         out.append(("submission-count", "C05", "%d Submit calls on instrumented executors, expected %d" % (rec["submits"], ex.submits)))
     if rec.get("shared_bad"):
         out.append(("shared-state-intact", "C02,C06", "%d SharedFuture(s) returned by steps no longer hold the Result that was set (moved-from or changed)" % rec["shared_bad"]))
+    # C12: "destroying a Task that was never started ... releases every captured functor" (and a started one its result)
+    rel = "C03,C12" if p.lazy else "C03"
     if rec["live"] != 0 or rec["bad"] != 0:
-        out.append(("tracked-leak", "C03", "tracked objects alive at quiescence: %d, canary failures: %d" % (rec["live"], rec["bad"])))
+        out.append(("tracked-leak", rel, "tracked objects (functor captures, values) alive at quiescence: %d, canary failures: %d" % (rec["live"], rec["bad"])))
     if rec["balance"] != 0:
-        out.append(("alloc-balance", "C03", "operator new/delete imbalance at quiescence: %d" % rec["balance"]))
+        out.append(("alloc-balance", rel, "operator new/delete imbalance at quiescence: %d" % rec["balance"]))
     if rec["mode"] == "base" and rec["allocs"] > ex.steps:
         out.append(("allocs-per-step", "C20", "%d allocations for %d pipeline steps" % (rec["allocs"], ex.steps)))
     return out, ex
@@ -787,6 +789,34 @@ def generate(seed, n_random, coro, max_len=4, exhaustive_l1=True):
                                 p.steps = [Step(1, attach, etag, sig, ret, "T", out_vt)]
                                 p.start = "tofuture"
                                 p.tail = "get"
+                                progs.append(p)
+                                pid += 1
+    if exhaustive_l1:
+        # lazy sources x the other ways of starting / abandoning x attach x signature, a reduced set of return kinds
+        for sk in ["schedule_e", "schedule", "lazy_contract", "make_task"] + (["coro_task"] if coro else []):
+            for start in ("tofuture_e", "detach", "detach_e", "drop"):
+                for attach in ("inline", "exec", "inherit", "stopped"):
+                    for sig in SIGS_T:
+                        for rk in ("val", "fut_ready"):
+                            for in_state in (ST_VAL, ST_ERR):
+                                p = Prog(pid)
+                                p.lazy = True
+                                p.coro = coro
+                                src = {"kind": sk, "vt": "T", "st": in_state, "code": 7}
+                                if sk == "schedule_e":
+                                    src["etag"] = 1
+                                if sk in ("schedule_e", "schedule"):
+                                    src["fret"] = {"kind": "res", "st": in_state, "code": 7}
+                                p.source = src
+                                p.start = start
+                                inh = inherited_after(src, [], True, start)
+                                if attach == "inherit" and inh is None:
+                                    continue
+                                ret = {"kind": rk, "code": 1042}
+                                if rk == "fut_ready":
+                                    ret["st"] = [ST_VAL, ST_ERR, ST_EXC][pid % 3]
+                                etag = {"exec": 1 + pid % 2, "stopped": 4}.get(attach)
+                                p.steps = [Step(1, attach, etag, sig, ret, "T", "T")]
                                 progs.append(p)
                                 pid += 1
     for i in range(n_random):
